@@ -40,6 +40,10 @@ func safePubKey(d did.DID) (pk crypto.PubKey, err error, panicked any) {
 		}
 	}()
 	pk, err = d.PubKey()
+	if pk == nil && err == nil {
+		// "a key or an error": neither is reported like a panic (every caller charges it)
+		panicked = "PubKey returned neither a key nor an error"
+	}
 	return
 }
 
@@ -50,6 +54,9 @@ func safeToPubKey(s string) (pk crypto.PubKey, err error, panicked any) {
 		}
 	}()
 	pk, err = did.ToPubKey(s)
+	if pk == nil && err == nil {
+		panicked = "ToPubKey returned neither a key nor an error"
+	}
 	return
 }
 
@@ -375,8 +382,13 @@ func c16CheckString(ctx *engine.Ctx, rc any, s string, tag string) {
 		}
 		return
 	}
+	if pk == nil {
+		ctx.Outcome("pubkey-neither-key-nor-error")
+		ctx.Failf(rc, "pubkey-returns-neither-key-nor-error/"+tag, "PubKey() of the parsed DID %s returns no key and no error", s)
+		return
+	}
 	// did.ToPubKey(s) is documented as Parse + PubKey: it must agree with them
-	if pk2, err2 := did.ToPubKey(s); err2 != nil || !pk2.Equals(pk) {
+	if pk2, err2 := did.ToPubKey(s); err2 != nil || pk2 == nil || !pk2.Equals(pk) {
 		ctx.Failf(rc, "topubkey-disagrees-with-parse/"+tag, "ToPubKey(%s) fails or returns another key than Parse+PubKey: %v", s, err2)
 	}
 	back, err := did.FromPubKey(pk)
